@@ -1,4 +1,5 @@
 import TexSoupModel.Args
+import TexSoupModel.Read
 /-!
 # Line-protocol front end for the `TexArgs` model
 
@@ -16,6 +17,9 @@ item ::= <str>        unparsed Python str, e.g. 123.120.125 for '{x}', 32 for ' 
        | x:<str>      the object TexText(<str>)
        | h<k>         the SAME object at every occurrence in the history:
                       h2 = one BracketGroup('b'), every other h<k> = one BraceGroup('a')
+       | P<k> | Q<k>  the k-th argument object of the command \\o (P) / \\q (Q) of the PARSED probe
+                      document (one parse per history; the same object at every occurrence):
+                      \\o{A \\textbf{b} c}[$x$]{{k}}{\\begin{e}z\\end{e}}{plain} \\q{A \\textbf{b} c}{plain}[$x$]
 op   ::= a:<item>             append(item)
        | e:<item>,<item>,..   extend([..])         (`e:` alone: extend([]))
        | i:<int>:<item>       insert(int, item)
@@ -26,6 +30,8 @@ op   ::= a:<item>             append(item)
        | g:<int>              args[int]
        | s:<lo>:<hi>          args[lo:hi], a bound is an int or `_` (left out)
        | t                    str(args)
+       | I                    (first operation only) target and other are not empty lists but the
+                              `.args` of \\o and \\q of the parsed probe document
        | x:<lo>:<hi>          args.extend(args[lo:hi])   (extend by a TexArgs object: own slice)
        | X                    args.extend(args)          (extend by the list itself)
        | y                    target.extend(other)       (`other`: the args of a second command)
@@ -94,12 +100,40 @@ def showOut : ArgsOut → String
   | .valueError => "ValueError"
   | .indexError => "IndexError"
 
+/-- The probe document (see the header), parsed by the model's own parser. -/
+def probeDoc : Str := [92, 111, 123, 65, 32, 92, 116, 101, 120, 116, 98, 102, 123, 98, 125, 32, 99, 125, 91, 36, 120, 36, 93, 123, 123, 107, 125, 125, 123, 92, 98, 101, 103, 105, 110, 123, 101, 125, 122, 92, 101, 110, 100, 123, 101, 125, 125, 123, 112, 108, 97, 105, 110, 125, 32, 92, 113, 123, 65, 32, 92, 116, 101, 120, 116, 98, 102, 123, 98, 125, 32, 99, 125, 123, 112, 108, 97, 105, 110, 125, 91, 36, 120, 36, 93]
+
+def probeArgsOf (name : Str) : List Expr → List Expr
+  | [] => []
+  | .cmd n a _ _ :: r => if n = name then a else probeArgsOf name r
+  | _ :: r => probeArgsOf name r
+
+/-- Argument objects of `\\o` (`q = false`) or `\\q` of the parsed probe, with their identities. -/
+def mkProbeObjs (q : Bool) : List Obj :=
+  match parse false [] probeDoc with
+  | .ok es =>
+    ((probeArgsOf (if q then [113] else [111]) es).zipIdx).map fun (ek : Expr × Nat) =>
+      ⟨.ext (2 * ((if q then 200000 else 100000) + ek.2)), ek.1⟩
+  | .error _ => []
+
+/-- Closed terms: evaluated once per driver process. -/
+def probeObjsO : List Obj := mkProbeObjs false
+def probeObjsQ : List Obj := mkProbeObjs true
+def probeObjs (q : Bool) : List Obj := if q then probeObjsQ else probeObjsO
+
+/-- `TexArgs(args)` as `TexExpr.__init__` builds the argument list of a parsed command. -/
+def probeState (q : Bool) : ArgsSt := (Args.construct ((probeObjs q).map .grp) 0).1
+
 /-- An item from its `:`-separated pieces; `occ` numbers the occurrence (fresh identity). -/
 def decItem (occ : Nat) (ws : List String) : Option ArgIn :=
   let fresh (e : Expr) : ArgIn := .grp ⟨.ext (2 * occ + 1), e⟩
   match ws with
   | [w] =>
-    if w.startsWith "h" then do
+    if w.startsWith "P" || w.startsWith "Q" then do
+      let k ← (w.drop 1).toString.toNat?
+      let o ← (probeObjs (w.startsWith "Q"))[k]?
+      pure (.grp o)
+    else if w.startsWith "h" then do
       let k ← (w.drop 1).toString.toNat?
       let e : Expr := if k == 2 then .group .bracket [.text [98] (-1)] (-1)
                       else .group .brace [.text [97] (-1)] (-1)
@@ -175,10 +209,19 @@ def argsHandle (words : List String) : String :=
   | [] => ""
   | [w] =>
     let ws := w.splitOn ";"
-    match (ws.zipIdx).mapM (fun (xn : String × Nat) => ArgsDrv.decPairOp xn.2 xn.1) with
-    | some ops =>
-      ";".intercalate (ArgsDrv.runShow (ws.any ArgsDrv.usesOther) (Args.PairSt.mk (.empty 0) (.empty 0)) ops)
-    | none => "bad-arg"
+    let two := ws.any ArgsDrv.usesOther
+    let (start, first, rest) : Args.PairSt × List String × List String :=
+      match ws with
+      | "I" :: r =>
+        let s : Args.PairSt := ⟨ArgsDrv.probeState false, ArgsDrv.probeState true⟩
+        (s, ["none @ " ++ ArgsDrv.showState s.tgt ++
+              (if two then " & " ++ ArgsDrv.showState s.oth else "")], r)
+      | _ => (⟨.empty 0, .empty 0⟩, [], ws)
+    if rest.isEmpty then ";".intercalate first
+    else
+      match (rest.zipIdx).mapM (fun (xn : String × Nat) => ArgsDrv.decPairOp (xn.2 + 1) xn.1) with
+      | some ops => ";".intercalate (first ++ ArgsDrv.runShow two start ops)
+      | none => "bad-arg"
   | _ => "bad-op"
 
 end TexSoup
